@@ -10,7 +10,7 @@ use num::Signed;
 use serde::{Deserialize, Serialize};
 use std::time::Instant;
 
-pub const RULE: &str = "cases = symmetric positive-definite matrices of dimension 1..8 built from the tape: G G^T (+ small diagonal), graded S G G^T S with S = diag(10^k), Hilbert-like 1/(i+j+1+c), Q Q^T with Q = D(I+N) and large strictly-lower N (stresses the nilpotent-series inverse), small-integer Q Q^T (Wilson type), and L matrices sum_e x_e s_e s_e^T of generated graphs with spread parameters; positive-definiteness and cond_F = |A|_F |A^-1|_F are decided in exact rational arithmetic and only cond_F <= 1e10 is asserted. oracle (exact rationals): q_transposed strictly upper triangular with positive diagonal, |R^T R - A|_F <= K eps n |A|_F, |R^-1 R - I|_F <= K eps n sqrt(cond), determinant and inverse within K eps cond (K=1000). non-trivial = n>=3 and (n in {3,5,6,7,8} or cond >= 1e4); distinct = distinct matrices";
+pub const RULE: &str = "(every matrix is decomposed four times: plain, with the stability test on at a matrix-dependent tolerance 1e-6..1e-16, and both again with print_debug_info on; every returned decomposition is judged) cases = symmetric positive-definite matrices of dimension 1..8 built from the tape: G G^T (+ small diagonal), graded S G G^T S with S = diag(10^k), Hilbert-like 1/(i+j+1+c), Q Q^T with Q = D(I+N) and large strictly-lower N (stresses the nilpotent-series inverse), small-integer Q Q^T (Wilson type), and L matrices sum_e x_e s_e s_e^T of generated graphs with spread parameters; positive-definiteness and cond_F = |A|_F |A^-1|_F are decided in exact rational arithmetic and only cond_F <= 1e10 is asserted. oracle (exact rationals): q_transposed strictly upper triangular with positive diagonal, |R^T R - A|_F <= K eps n |A|_F, |R^-1 R - I|_F <= K eps n sqrt(cond), determinant and inverse within K eps cond (K=1000). non-trivial = n>=3 and (n in {3,5,6,7,8} or cond >= 1e4); distinct = distinct matrices";
 
 #[derive(Clone, Debug, Serialize, Deserialize)]
 pub struct Case {
@@ -265,11 +265,23 @@ pub fn check(c: &Case, ctx: &mut Ctx) -> Result<(), Failure> {
             return Ok(());
         }
     }
-    let dec = match sut::decompose(a, None) {
+    // the returned decomposition is judged under every setting that returns one: plain, with print_debug_info on, and
+    // with the stability test on at a tolerance that, depending on the matrix, accepts or refuses
+    let hb = a.iter().flatten().fold(11u64, |acc, v| acc.wrapping_mul(1_000_003).wrapping_add(v.to_bits()));
+    let tol_h = [1e-6, 1e-10, 1e-13, 1e-15, 1e-16][(hb % 5) as usize];
+    for (stab, dbg) in [(None, false), (Some(tol_h), false), (None, true), (Some(tol_h), true)] {
+    let dec = match sut::decompose_dbg(a, stab, dbg) {
         Ok(d) => d,
-        Err(SutErr::Panic(m)) => fail!("decompose-panic", "decompose_for_tropical panicked: {m} on {a:?}"),
-        Err(e) => fail!("spd-rejected", "decompose_for_tropical returned {e:?} for an SPD matrix with cond_F = {cond:e}: {a:?}"),
+        Err(SutErr::Panic(m)) => fail!("decompose-panic", "decompose_for_tropical panicked: {m} on {a:?} (stability {stab:?}, debug {dbg})"),
+        Err(SutErr::Unstable) if stab.is_some() => {
+            ctx.label("stability-test:refused");
+            continue;
+        }
+        Err(e) => fail!("spd-rejected", "decompose_for_tropical returned {e:?} for an SPD matrix with cond_F = {cond:e}: {a:?} (stability {stab:?}, debug {dbg})"),
     };
+    if stab.is_some() {
+        ctx.label("stability-test:accepted");
+    }
     let nn = n as f64;
     // shape of the factor
     for i in 0..n {
@@ -312,6 +324,7 @@ pub fn check(c: &Case, ctx: &mut Ctx) -> Result<(), Failure> {
     ctx.max("inverse_rel_over_tol", e4 / t4);
     if !(e4 <= t4) {
         fail!("inverse", "|inverse - A^-1|_F/|A^-1|_F = {e4:e} > {t4:e} (cond {cond:e}); A = {a:?}, inverse = {:?}", dec.inv);
+    }
     }
     if n >= 3 && ([3, 5, 6, 7, 8].contains(&n) || cond >= 1e4) {
         ctx.nontrivial();
